@@ -31,8 +31,11 @@ def tokty(ty):
     return bool(TOK.search(ty))
 
 
+GENERIC_NODE = re.compile(r"^&?(mut )?(Self|[A-Z]|impl .*Node.*)$")
+
+
 def nodety(ty):
-    return "full_moon::ast::" in ty or "TokenReference" in ty or "full_moon::node::" in ty
+    return "full_moon::ast::" in ty or "TokenReference" in ty or "full_moon::node::" in ty or bool(GENERIC_NODE.search(ty))
 
 
 class FnSummary:
@@ -93,47 +96,65 @@ class Analysis:
                 return nmemo[key]
             nmemo[key] = frozenset()
             out = set()
+            it = _iter_item(f, o)
+            if it is not None:
+                res = frozenset().union(*[node_labels(x, depth + 1) for x in it]) if it else frozenset()
+                nmemo[key] = res
+                return res
             if f.kind == "Closure" and pl["l"] == 1:
                 fs = [e["f"] for e in pl.get("p", []) if isinstance(e, dict) and "f" in e]
                 if fs:
                     out.add(("u", int(fs[0])))
                     nmemo[key] = frozenset(out)
                     return nmemo[key]
-            for r in provenance(f, o, through=None, into_aggs=False):
-                if r[0] == "arg":
-                    out.add(("p", r[1]))
-                elif r[0] == "upvar":
-                    try:
-                        out.add(("u", int(r[1])))
-                    except (TypeError, ValueError):
-                        pass
-                elif r[0] == "agg":
-                    for s_ in f.blocks[r[2]]["st"]:
-                        if s_["k"] == "assign" and s_["rv"]["k"] == "agg" and "closure" not in s_["rv"]:
-                            for x in s_["rv"]["ops"]:
-                                if not is_const(x) and (nodety(f.local_ty(op_place(x)["l"])) or tokty(f.local_ty(op_place(x)["l"]))):
-                                    # only the aggregate that defines this local
-                                    if s_["dst"]["l"] in {q for q in _agg_dsts(f, o)}:
-                                        out |= node_labels(x, depth + 1)
-                elif r[0] == "call":
-                    t = f.blocks[r[2]]["term"]
-                    c = r[1]
-                    if SANITISE.search(c) or FRESH.search(c):
+            l = pl["l"]
+            ds = f.defs().get(l, [])
+            if 1 <= l <= f.argc and not (f.kind == "Closure" and l == 1):
+                out.add(("p", l))
+            for bi, si, st_ in ds:
+                if si != "term":
+                    rv = st_["rv"]
+                    if rv["k"] in ("use", "cast", "repeat"):
+                        out |= node_labels(rv["o"], depth + 1)
+                    elif rv["k"] in ("ref", "rawptr"):
+                        out |= node_labels({"cp": rv["p"]}, depth + 1)
+                    elif rv["k"] == "agg" and "closure" not in rv:
+                        for x in rv["ops"]:
+                            if not is_const(x):
+                                xty = f.local_ty(op_place(x)["l"])
+                                if nodety(xty) or tokty(xty):
+                                    out |= node_labels(x, depth + 1)
+                    continue
+                t = st_
+                c = callee(t)
+                if SANITISE.search(c) or FRESH.search(c):
+                    continue
+                h = self.local_fn(t)
+                if h is not None and h.kind != "Closure" and not RANGE_ONLY.search(h.path):
+                    hs = self.summary(h)
+                    labs = hs.nret | hs.tret
+                    for lb in labs:
+                        if lb[0] == "p" and lb[1] - 1 < len(t["args"]):
+                            out |= node_labels(t["args"][lb[1] - 1], depth + 1)
+                    continue
+                if re.search(r"(Option|Result)::<.*>::(map|and_then|map_or|map_or_else|then|unwrap_or_else|or_else)$|"
+                             r"(Option|Result)::<T(, E)?>::(map|and_then|map_or|map_or_else|unwrap_or_else|or_else)$|Pair::<T>::map$|"
+                             r"Iterator::map$", c):
+                    g, cops = closure_of(t["args"][-1])
+                    if g is not None and nodety(g.locals[0]):
+                        gs = self.summary(g)
+                        for lb in gs.nret | gs.tret:
+                            if lb[0] == "u" and lb[1] < len(cops):
+                                out |= node_labels(cops[lb[1]], depth + 1)
+                            elif lb[0] == "p":
+                                out |= node_labels(t["args"][0], depth + 1)
                         continue
-                    h = self.local_fn(t)
-                    if h is not None and h.kind != "Closure" and not RANGE_ONLY.search(h.path):
-                        hs = self.summary(h)
-                        labs = hs.nret | hs.tret
-                        for lb in labs:
-                            if lb[0] == "p" and lb[1] - 1 < len(t["args"]):
-                                out |= node_labels(t["args"][lb[1] - 1], depth + 1)
+                for a in t["args"]:
+                    if is_const(a):
                         continue
-                    for a in t["args"]:
-                        if is_const(a):
-                            continue
-                        ty = f.local_ty(op_place(a)["l"])
-                        if nodety(ty) or tokty(ty) or a is t["args"][0]:
-                            out |= node_labels(a, depth + 1)
+                    ty = f.local_ty(op_place(a)["l"])
+                    if nodety(ty) or tokty(ty) or a is t["args"][0]:
+                        out |= node_labels(a, depth + 1)
             nmemo[key] = frozenset(out)
             return nmemo[key]
 
@@ -149,6 +170,16 @@ class Analysis:
                 if fs:
                     return frozenset({("u", int(fs[0]))})
             return TL.get(pl["l"], frozenset())
+
+        def both(a):
+            """labels of an argument: a token collection answers with its tracked token labels (which know about
+            sanitising closures); a node answers with the root(s) of its receiver chain"""
+            if a is None or is_const(a):
+                return frozenset()
+            ty = f.local_ty(op_place(a)["l"])
+            if tokty(ty) and not nodety(ty.replace("TokenReference", "").replace("tokenizer::Token", "")):
+                return tl(a)
+            return tl(a) | node_labels(a)
 
         def add(l, labs, src=None):
             if not labs:
@@ -194,6 +225,14 @@ class Analysis:
                             src |= SRC.get(op_place(x)["l"], set())
                 if labs and (tokty(f.local_ty(d)) or not nodety(f.local_ty(d))):
                     changed |= add(d, labs, src)
+                    if s["dst"].get("p"):
+                        # a write through a pointer (`vec![a, b]` fills a fresh Box through `*ptr`): the owner of the
+                        # pointee holds the value too
+                        for bi2, si2, s2 in f.defs().get(d, []):
+                            if si2 != "term" and s2["rv"]["k"] in ("cast", "use", "ref", "rawptr"):
+                                src_pl = op_place(s2["rv"]["o"]) if s2["rv"]["k"] in ("cast", "use") else s2["rv"]["p"]
+                                if src_pl and not is_const(s2["rv"].get("o", {})):
+                                    changed |= add(src_pl["l"], labs, src)
             for b, t in f.calls():
                 c = callee(t)
                 if "p" in t["dst"]:
@@ -232,7 +271,7 @@ class Analysis:
                     for a in args:
                         g, cops = closure_of(a)
                         if g is not None:
-                            self._lift(f, b, g, cops, args, tl, node_labels, lifted_sinks, SRC)
+                            self._lift(f, b, g, cops, args, both, lifted_sinks, SRC)
                     continue
                 labs = frozenset()
                 src = set()
@@ -242,33 +281,54 @@ class Analysis:
                     for lb in hs.tret:
                         if lb[0] == "p" and lb[1] - 1 < len(args):
                             a = args[lb[1] - 1]
-                            got = tl(a) | node_labels(a)
+                            got = both(a)
                             if got:
                                 labs |= got
                                 src.add(h.path.split("::")[-1])
                 else:
-                    for a in args:
+                    closure_decides = False
+                    recv_labs = frozenset()
+                    recv_src = set()
+                    for ai, a in enumerate(args):
                         if is_const(a):
                             continue
                         aty = f.local_ty(op_place(a)["l"])
                         g, cops = closure_of(a)
                         if g is not None:
                             gs = self.summary(g)
-                            sub = self._subst(gs.tret, cops, args, tl, node_labels)
+                            sub = self._subst(gs.tret, cops, args, both)
                             labs |= sub
                             if sub:
-                                src.add("closure")
-                            self._lift(f, b, g, cops, args, tl, node_labels, lifted_sinks, SRC)
+                                pass
+                            self._lift(f, b, g, cops, args, both, lifted_sinks, SRC)
+                            if tokty(g.locals[0]):
+                                closure_decides = True
                             continue
                         got = tl(a)
-                        if got:
-                            src |= SRC.get(op_place(a)["l"], set())
+                        gsrc = set(SRC.get(op_place(a)["l"], set())) if got else set()
                         if nodety(aty) and not tokty(aty.replace("TokenReference", "")):
                             nl = node_labels(a)
                             if nl:
-                                src.add(c.split("::")[-1])
+                                gsrc.add(c.split("::")[-1])
                             got = got | nl
+                        if ai == 0 and re.search(r"Iterator::(map|flat_map|filter_map|scan)$|Option::<.*>::(map|and_then)$", c):
+                            # the items of the receiver reach the result only through the closure (`p` labels of its
+                            # summary stand for them): kept aside, used when the closure hands its argument on
+                            recv_labs, recv_src = got, gsrc
+                            continue
                         labs |= got
+                        src |= gsrc
+                    if recv_labs:
+                        if closure_decides:
+                            # closure summaries substitute every `p` label by all arguments: redo it for the receiver only
+                            for a in args:
+                                g, cops = closure_of(a)
+                                if g is not None and any(lb[0] == "p" for lb in self.summary(g).tret):
+                                    labs |= recv_labs
+                                    src |= recv_src
+                        else:
+                            labs |= recv_labs
+                            src |= recv_src
                 changed |= add(d, labs, src)
         # sinks
         for b, si_, s in f.stmts():
@@ -276,8 +336,16 @@ class Analysis:
                     and s["rv"].get("variant") in ("Append", "Replace") and s["rv"]["ops"]:
                 o = s["rv"]["ops"][0]
                 labs = tl(o)
-                if labs:
-                    S.sinks.append((b, s["rv"]["variant"], labs, frozenset(SRC.get(op_place(o)["l"], set())), s.get("sp")))
+                if labs and not _formatted_later(f, s["dst"]["l"]):
+                    # the node the tokens are attached to: attaching raw tokens to a node that is itself raw changes nothing
+                    recv = frozenset()
+                    found = False
+                    for u in forward_uses(f, s["dst"]["l"]):
+                        if u[0] == "call" and re.search(r"update_(leading_|trailing_)?trivia$", callee(u[2])) and u[3] >= 1:
+                            found = True
+                            recv |= node_labels(u[2]["args"][0])
+                    S.sinks.append((b, s["rv"]["variant"], labs, frozenset(SRC.get(op_place(o)["l"], set())), s.get("sp"),
+                                    recv if found else None))
         for b, t in f.calls():
             if re.search(r"TokenReference::new$", callee(t)) and len(t["args"]) == 3:
                 labs = tl(t["args"][0]) | tl(t["args"][2])
@@ -286,7 +354,7 @@ class Analysis:
                     for a in (t["args"][0], t["args"][2]):
                         if not is_const(a):
                             srcs |= SRC.get(op_place(a)["l"], set())
-                    S.sinks.append((b, "TokenReference::new", labs, frozenset(srcs), t.get("sp")))
+                    S.sinks.append((b, "TokenReference::new", labs, frozenset(srcs), t.get("sp"), None))
         for k, v in lifted_sinks.items():
             S.sinks.append(v)
         if tokty(f.locals[0]):
@@ -300,35 +368,127 @@ class Analysis:
                 continue
             al = []
             for a in t["args"]:
-                al.append(tl(a) | node_labels(a) if not is_const(a) else frozenset())
+                al.append(both(a))
             S.calls.append((b, h.path, al))
+        # functions handed over as values (`pair.map(var_remove_leading_newline)`, a formatter passed to
+        # format_punctuated): their parameters receive what the other arguments of that call hold
+        for b, t in f.calls():
+            for a in t["args"]:
+                if is_const(a) and a.get("fn"):
+                    h = self.fns.get(a.get("rfn") or a["fn"]) or self.fns.get(a["fn"])
+                    if h is None or h.kind == "Closure":
+                        continue
+                    labs = frozenset()
+                    for a2 in t["args"]:
+                        if not is_const(a2):
+                            labs |= both(a2)
+                    S.calls.append((b, h.path, [labs] * h.argc))
         S.src = SRC
+        S.tl = dict(TL)
         return S
 
-    def _subst(self, labels, cops, args, tl, node_labels):
+    def _subst(self, labels, cops, args, both):
         out = frozenset()
         for lb in labels:
             if lb[0] == "u" and cops is not None and lb[1] < len(cops):
-                out |= tl(cops[lb[1]]) | node_labels(cops[lb[1]])
-            elif lb[0] == "p":
+                out |= both(cops[lb[1]])
+            elif lb[0] == "p" and lb[1] >= 2:
                 # an item of the adaptor's receiver (or any other token / node argument of the call)
                 for a in args:
                     if is_const(a):
                         continue
-                    out |= tl(a) | node_labels(a)
+                    out |= both(a)
         return out
 
-    def _lift(self, f, b, g, cops, args, tl, node_labels, lifted, SRC):
+    def _lift(self, f, b, g, cops, args, both, lifted, SRC):
         gs = self.summary(g)
-        for (gb, kind, labs, srcs, sp) in gs.sinks:
-            sub = self._subst(labs, cops, [a for a in args if self._not_closure(f, a)], tl, node_labels)
+        for (gb, kind, labs, srcs, sp, recv) in gs.sinks:
+            rest = [a for a in args if self._not_closure(f, a)]
+            sub = self._subst(labs, cops, rest, both)
             if sub:
-                lifted[(g.path, gb, kind)] = (b, kind, sub, srcs, sp)
+                rsub = None if recv is None else self._subst(recv, cops, rest, both)
+                lifted[(g.path, gb, kind)] = (b, kind, sub, srcs, sp, rsub)
 
     def _not_closure(self, f, a):
         if is_const(a):
             return False
         return "closure@" not in f.local_ty(op_place(a)["l"])
+
+
+def _iter_item(f, o):
+    """`for (i, (a, b)) in xs.zip(ys).enumerate()`: the operands the selected component of the loop item comes from
+    (a list, possibly empty for the index), or None when `o` is not such a component"""
+    from paths import access_path
+    try:
+        root, steps = access_path(f, o)
+    except Exception:
+        return None
+    if root[0] != "call":
+        return None
+    t = f.blocks[root[1]]["term"]
+    if not re.search(r"Iterator>?::next(_back)?$", callee(t)) or not t["args"]:
+        return None
+    steps = [st for st in steps]
+    if steps[:2] != [("v", "Some"), ("f", "0")]:
+        return None
+    rest = [st[1] for st in steps[2:] if st[0] == "f"]
+    cur = t["args"][0]
+    for _ in range(12):
+        rs = [r for r in provenance(f, cur, through=None, into_aggs=False) if r[0] == "call"]
+        if len(rs) != 1:
+            return [cur]
+        t2 = f.blocks[rs[0][2]]["term"]
+        c2 = callee(t2)
+        if re.search(r"Iterator::enumerate$", c2):
+            if rest and rest[0] == "0":
+                return []
+            if rest and rest[0] == "1":
+                rest = rest[1:]
+            cur = t2["args"][0]
+        elif re.search(r"Iterator::zip$", c2):
+            if rest and rest[0] in ("0", "1"):
+                cur = t2["args"][int(rest[0])]
+                rest = rest[1:]
+            else:
+                return [t2["args"][0], t2["args"][1]]
+        elif re.search(r"IntoIterator>::into_iter$|::iter$|::into_pairs$|::pairs$|Iterator::(rev|skip|peekable|by_ref|cloned|copied)$|"
+                       r"::iter_mut$|::pairs_mut$", c2) and t2["args"]:
+            cur = t2["args"][0]
+        else:
+            return [cur]
+    return [cur]
+
+
+def _formatted_later(f, local, depth=0, seen=None):
+    """every consumer of the value (a FormatTriviaType, then the node updated with it) ends in a formatter call:
+    `format_x(ctx, &node.update_trailing_trivia(Append(raw)), ..)` sanitises the attached tokens afterwards"""
+    seen = set() if seen is None else seen
+    if local in seen or depth > 12:
+        return True
+    seen.add(local)
+    uses = forward_uses(f, local)
+    if not uses:
+        return False
+    for u in uses:
+        if u[0] == "ret":
+            return False
+        if u[0] == "call":
+            t = u[2]
+            c = callee(t)
+            if SANITISE.search(c):
+                continue
+            if "p" in t["dst"]:
+                return False
+            dty = f.local_ty(t["dst"]["l"])
+            if nodety(dty) or "FormatTriviaType" in dty:
+                if not _formatted_later(f, t["dst"]["l"], depth + 1, seen):
+                    return False
+                continue
+            return False
+        if u[0] == "agg":
+            continue          # forward_uses already follows the aggregate's destination
+        return False
+    return True
 
 
 def _agg_dsts(f, o):
@@ -390,10 +550,13 @@ def rule_raw(ctx, prop, known_ok=()):
                 continue
             s = an.summary(f)
             nfn += 1
-            for (b, kind, labs, srcs, sp) in s.sinks:
+            for (b, kind, labs, srcs, sp, recv) in s.sinks:
                 nsink += 1
                 raw_params = sorted(lb[1] for lb in labs if lb[0] == "p" and (f.path, lb[1]) in PR)
-                ok = not raw_params
+                recv_raw = recv is not None and any(lb[0] == "p" and (f.path, lb[1]) in PR for lb in recv)
+                # appending raw tokens to a node that is itself raw changes nothing (it is formatted later or judged where
+                # it is used); replacing the trivia of a raw token-like node makes the given tokens its trivia for good
+                ok = not raw_params or (recv_raw and kind == "Append")
                 names = [f.names.get(i, f"_{i}") if hasattr(f, "names") and isinstance(f.names, dict) else f"_{i}" for i in raw_params]
                 rep.inst(f"{f.key} {kind} of tokens from {sorted(srcs) or ['?']}", {"raw_params": raw_params, "at": f.loc(sp)}, cfg, ok=ok)
                 if not ok:
